@@ -4,7 +4,7 @@ from ..rules import r10, r6p
 
 
 def run(ctx: Ctx) -> list[Ob]:
-    return r10.run(ctx) + r10.r10g(ctx) + r6p.r6p(ctx) + r6p.r6q(ctx) + r10.r10j(ctx) + r10.r10k(ctx)
+    return r10.run(ctx) + r10.r10g(ctx) + r6p.r6p(ctx) + r6p.r6q(ctx) + r10.r10j(ctx) + r10.r10k(ctx) + r10.r10m(ctx) + r10.r10n(ctx)
 
 
 SPEC = PropSpec(
@@ -27,11 +27,13 @@ SPEC = PropSpec(
         "once') and re-initialised by the reset_parameters() ending the derived circuit's compilation, overwriting loaded values."
         " R10j: TorchCircuit.reset_parameters visits, for every layer, its params and (recursively) the layers in its sub_modules -- the tensors of a layer wrapped by an evidence layer are allocated and initialised with the rest."
         " R6q: no loop over torch's module-tree traversals (modules / children / parameters ..) applies a reset, an in-place write or an initialiser to its elements -- the tree contains the tensors pointer nodes refer to."
-        " R10k ('exactly once' for derived circuits): the pointer class must not keep its target in a plain module-valued attribute, which nn.Module registers as a child (known finding D26: it does, so the state dict of a derived circuit lists each operand tensor once per pointer)."
+        " R10k ('exactly once' for derived circuits): a pointer registers its target as a child (it must, R10a: the dictionary of a derived circuit has to hold the tensors it evaluates), so a tensor with two pointers in one circuit (c * c) is listed under two keys unless a state_dict / _save_to_state_dict override or hook de-duplicates; the rule looks for that mechanism (known finding D26: there is none)."
+        ' R10m: no evaluation method (forward, log_partition_function, integrate, sample, ..) assigns a persistent registered buffer: a cache registered as None and filled on first use makes the key set of the state dict depend on which queries an instance has answered.'
+        ' R10n: a parameter node that holds another node (TorchPointerParameter) evaluates the stored target in forward and never returns a tensor bound from it elsewhere (reset_parameters, the constructor): a bound tensor follows in-place updates and silently stops following the operand when the operand re-allocates.'
     ),
     not_decided=(
         "torch's own state_dict / load_state_dict semantics; that a fresh compilation enumerates modules in the same order; numerical equality of the outputs."
     ),
     run=run,
-    floors={"R6p": 4, "R10a": 15, "R10b": 12, "R10c": 3, "R10d": 2, "R10e": 3, "R10f": 50, "R10g": 60},
+    floors={"R10n": 1, "R10m": 10, "R6p": 4, "R10a": 15, "R10b": 12, "R10c": 3, "R10d": 2, "R10e": 3, "R10f": 50, "R10g": 60},
 )
